@@ -268,6 +268,9 @@ def run_shard(ctx):
     count = ctx.pick(300, 8000)
     rp = gen.RandomPrograms(rng, max_depth=3, max_eqs=6, max_names=8, big_offsets=True, conflict_rate=0.25, funcvar_rate=0.1,
                             lhs_offsets=(0, 0, 0, 0, 0, -1, 1), allow=('num', 'neg', 'bin', 'paren', 'call1', 'call2', 'ifexp', 'cmp', 'named', 'verb', 'block'))
+    # user-supplied functions with one-letter, underscore and dotted one-letter names: a name followed by '(' is a function
+    rp.extra_funcs1 = ['f', '_', 'h.k']
+    rp.extra_funcs2 = ['g']
     for k in range(count):
         prog = rp.program()
         lay = gen.Layout(rng, noise=rng.choice([0.0, 0.3]), breaks=rng.choice([0.0, 0.2]), comments=rng.choice([0.0, 0.2]))
